@@ -31,4 +31,6 @@ for id in C01 C02 C03 C04 C05 C06 C07 C08 C09 C10 C11 C12 C13 C14 C15 C16 C17 C1
     echo "$id $k $ex"
   done
 done > $HERE/build/benres/todo.txt
-cat $HERE/build/benres/todo.txt | xargs -P 3 -L 1 bash -c 'id=$0; k=$1; shift 2 2>/dev/null; timeout 3000 env VERIF_NPROC=5 python3 '$HERE'/tools/verify_benign.py $id '$SRC'/$id-out/benign$k.diff '$SRC'/$id-out/equiv$k.py "$@" > '$HERE'/build/benres/$id-$k.json 2>&1; echo "$id-$k done $(date +%T)"'
+sed -i 's/ *$//' $HERE/build/benres/todo.txt
+export HERE SRC
+cat $HERE/build/benres/todo.txt | xargs -P 3 -I LINE bash -c 'set -- LINE; id=$1; k=$2; shift 2; timeout 3000 env VERIF_NPROC=5 python3 $HERE/tools/verify_benign.py $id $SRC/$id-out/benign$k.diff $SRC/$id-out/equiv$k.py "$@" > $HERE/build/benres/$id-$k.json 2>&1; echo "$id-$k done $(date +%T)"'
